@@ -36,8 +36,8 @@ PROB = {
     'google': {'xref': '`nopeX`', 'param': 'Args:\n    zzX: nothing'},
     'numpy': {'xref': '`nopeX`', 'param': 'Parameters\n----------\nzzX: int\n    nothing'},
 }
-POSITIONS = ['p1l1', 'p1l2', 'p2', 'li', 'fb', 'sections']
-OWNERS = ['module', 'class', 'function', 'method', 'attribute', 'inherited', 'reexported', 'classfield', 'classfield+inline', 'typefield+inline', 'ivar-two-sites', 'attr-redefined', 'classtypefield', 'modvarfield', 'modtypefield', 'class-redefined', 'function-redefined', 'class-redefined-both-bad']
+POSITIONS = ['p1l1', 'p1l2', 'p2', 'li', 'fb', 'sections', 'after-linesep']
+OWNERS = ['module', 'class', 'function', 'method', 'attribute', 'inherited', 'reexported', 'classfield', 'classfield+inline', 'typefield+inline', 'ivar-two-sites', 'attr-redefined', 'classtypefield', 'modvarfield', 'modtypefield', 'class-redefined', 'function-redefined', 'class-redefined-both-bad', 'inherited-rendered-first']
 # (text on the opening line, leading lines below the quotes)
 LAYOUTS: List[Tuple[bool, List[str]]] = [(True, []), (False, []), (False, ['']), (False, ['', '']), (False, ['WS']), (False, ['TRAIL'])]
 
@@ -68,6 +68,9 @@ def body_for(fmt: str, kind: str, pos: str) -> Optional[Tuple[List[str], int, in
         if fmt in ('google', 'numpy'):
             return None
         return ['Para one.', '', f'{li_ind}- item one', f'{li_ind}- item two ' + p + ' end', '', 'After.'], 3, 3
+    if pos == 'after-linesep':
+        # characters that some text APIs treat as line boundaries (U+2028, U+2029, NEL, FS/GS/RS, VT, FF) but that do not end a physical source line
+        return ['Para one with odd \u2028 separators \u2029 and \x85 and \x1c \x1d \x1e here.', '', 'Para two ' + p + ' end.'], 2, 2
     if pos == 'sections':
         # the problem sits in the last of several sections, after typed entries (which the napoleon formats expand into several fields)
         if fmt == 'google':
@@ -97,7 +100,7 @@ def module_source(owner: str, fmt: str, kind: str, pos: str, layout: Tuple[bool,
         return None
     if owner in ATTRS[1:] and fmt in ('google', 'numpy'):
         return None
-    if owner in ('inherited', 'reexported', 'classfield', 'classfield+inline') + ATTRS[1:] and (nest or raw or layout[1] not in ([], [''])):
+    if owner in ('inherited', 'inherited-rendered-first', 'reexported', 'classfield', 'classfield+inline') + ATTRS[1:] and (nest or raw or layout[1] not in ([], [''])):
         return None          # these owners vary the location of the object, not the layout of the literal
     if owner in ('classtypefield', 'modvarfield', 'modtypefield'):
         # the problem sits in the body of a field of the class / module docstring that documents (the type of) the variable q
@@ -167,7 +170,7 @@ def module_source(owner: str, fmt: str, kind: str, pos: str, layout: Tuple[bool,
         lines += pre + ([ind + ('@staticmethod' if nest else '@deco')] if deco else []) + [ind + ('def f(a):' if (not nest or deco) else 'def f(self, a):')]
         base = len(lines)
         lines += d + [ind + '    pass']
-    elif owner in ('method', 'inherited'):
+    elif owner in ('method', 'inherited', 'inherited-rendered-first'):
         d, off = doc(ind + '        ')
         lines += pre + [ind + 'class K:', ind + '    def m(self, a):']
         base = len(lines)
@@ -271,6 +274,9 @@ def run_batch(fmt: str, batch: Sequence[Tuple[Any, ...]], res: Dict[str, Any]) -
                 reexports.append(f'f_{name}')
             if owner == 'inherited':
                 files[f'pk/x{name}.py'] = f'from .{name} import K\nclass Other(K):\n    def m(self, a):\n        pass\n'
+            if owner == 'inherited-rendered-first':
+                # the inheriting class lives in a module whose page is written BEFORE the page of the defining class
+                files[f'pk/a{name}.py'] = f'from .{name} import K\nclass Early(K):\n    def m(self, a):\n        pass\n'
             files[f'pk/{name}.py'] = src
             meta[name] = (kind, owner, pos, li, nest, raw, deco, k, pl, bs, ext, src)
     if reexports:
@@ -285,7 +291,7 @@ def run_batch(fmt: str, batch: Sequence[Tuple[Any, ...]], res: Dict[str, Any]) -
             if m:
                 rep.setdefault(m.group(1), []).append((m.group(2), m.group(3)))
                 continue
-            m = re.match(r'<R>/pk/(x(m\d+)|__init__)\.py:(\d+|\?\?\?): (.*)', line)
+            m = re.match(r'<R>/pk/([xa](m\d+)|__init__)\.py:(\d+|\?\?\?): (.*)', line)
             if m:
                 # a file that contains no docstring at fault: the companion module of an inherited docstring or the re-exporting __init__
                 which = 'inheriting-module' if m.group(2) else 're-exporting-module'
@@ -320,7 +326,8 @@ def run_batch(fmt: str, batch: Sequence[Tuple[Any, ...]], res: Dict[str, Any]) -
             if not (lo <= nline <= hi):
                 rel = 'before' if nline < lo else 'after'
                 # google / numpy: only "inside the docstring" is demanded, so owner and layout of the literal do not select different behaviour
-                wsig = (f'wrong-line/{fmt}/{kind}/{rel}-the-docstring/{pos}' if fmt in ('google', 'numpy')
+                wsig = (f'wrong-line/{fmt}/{kind}/{rel}/after-linesep' if pos == 'after-linesep' else
+                        f'wrong-line/{fmt}/{kind}/{rel}-the-docstring/{pos}' if fmt in ('google', 'numpy')
                         else f'wrong-line/{label}/{rel}/{laydesc}' + ('/' + pos if pos in ('li', 'fb') else ''))
                 res['violations'].append(core.violation(wsig,
                                                         f'{kind} planted at line {pl} (block starts at {bs}) of a {owner} docstring ({fmt}, layout {laydesc}, position {pos}, nest {nest}, raw {raw}): reported at {nline}: {msg}\n{src}', case))
